@@ -350,6 +350,12 @@ func runE2E(c ECase) *hx.Outcome {
 			spellings["with-ext"] = we
 		}
 	}
+	// the mailbox's own name in another letter case: a name, too, is asked for case-insensitively
+	if re := hx.ReCase(box, c.Mask|1); re != box {
+		if n, err := w.MailboxFor(re); err == nil && strings.EqualFold(n, box) {
+			spellings["name-recased"] = re
+		}
+	}
 	for kind, sp := range spellings {
 		code, l, err := listVia(w.HTTP.URL, "", sp)
 		if err != nil {
